@@ -8,6 +8,7 @@
  3. direction B: pointwise kernels (reim, cplx, reim4; ref, FMA, SSE, AVX-512, dispatch, simple) with r=a, r=b on
     random integer-valued data recorded and validated by TLC.
 """
+import json
 import random
 
 import numpy as np
@@ -133,6 +134,63 @@ def drive_pw_b(rec, part, count):
     rec.data["events"] = events
 
 
+def drive_idft_overlay(rec, cases, ns):
+    """IdftOverlay.tla cases: vec_znx_idft / vec_znx_idft_tmp_a with res = the buffer of a_dft against the same call with a
+    separate output (and against the integers the DFT was made from)"""
+    from lib import Buf, FFT64, NTT120
+    L = Lib.get()
+    rng = random.Random(rec.seed * 29 + 1)
+    ok = 0
+    for n in ns:
+        for c in cases:
+            variants = [("FFT64", FFT64, MASK_NONE), ("FFT64", FFT64, MASK_GENERIC)] if c["ratio"] == 1 else [("NTT120", NTT120, MASK_NONE)]
+            for mk, mt, mask in variants:
+                mod = L.module(n, mt, mask)
+                L.set_cpu_mask(MASK_NONE)
+                unit = 8 * n if c["ratio"] == 1 else 16 * n          # bytes of one big limb; a DFT limb is ratio units
+                a_size, r_size = c["as"], c["rs"]
+                vals = [np.array([rng.randrange(-(1 << 20), 1 << 20) for _ in range(n)], dtype=np.int64) for _ in range(a_size)]
+                A = Buf(8 * n * a_size, fill=0x11)
+                for i, v in enumerate(vals):
+                    A.i64[i * n:(i + 1) * n] = v
+                for tmp_a in (False, True):
+                    label = "vec_znx_idft%s[%s mask=%d] N=%d a_size=%d res_size=%d res = a_dft" % ("_tmp_a" if tmp_a else "", mk, mask, n, a_size, r_size)
+                    if not rec.progress(label):
+                        continue
+                    shared = Buf(unit * max(c["ratio"] * a_size, r_size), fill=0x6B)
+                    sep_d = Buf(unit * c["ratio"] * a_size, fill=0x6B)
+                    sep_r = Buf(unit * r_size, fill=0x3A)
+                    L.call("vec_znx_dft", mod, sep_d, a_size, A, a_size, n)
+                    shared.u8[:unit * c["ratio"] * a_size] = sep_d.u8
+                    T1 = Buf(L.call("vec_znx_idft_tmp_bytes", mod), fill=0xEE)
+                    T2 = Buf(L.call("vec_znx_idft_tmp_bytes", mod), fill=0xEE)
+                    if tmp_a:
+                        L.call("vec_znx_idft_tmp_a", mod, sep_r, r_size, sep_d, a_size)
+                        L.call("vec_znx_idft_tmp_a", mod, shared, r_size, shared, a_size)
+                    else:
+                        L.call("vec_znx_idft", mod, sep_r, r_size, sep_d, a_size, T1)
+                        L.call("vec_znx_idft", mod, shared, r_size, shared, a_size, T2)
+                    rec.case(("idft overlay", mk, mask, a_size, r_size, tmp_a), nontrivial=r_size > 0 and a_size > 0)
+                    if not all(b.canaries_ok() for b in (shared, sep_d, sep_r, T1, T2, A)):
+                        rec.violation(label + ": write outside an object", {"case": c, "N": n})
+                        continue
+                    if not np.array_equal(shared.u8[:unit * r_size], sep_r.u8):
+                        k = int(np.argmax(shared.u8[:unit * r_size] != sep_r.u8))
+                        rec.violation(label + ": differs from the call with a separate output (byte %d, limb %d)" % (k, k // unit),
+                                      {"case": c, "N": n, "variant": "tmp_a" if tmp_a else "idft"})
+                        continue
+                    exp = np.zeros(r_size * n, dtype=np.int64)
+                    for i in range(min(a_size, r_size)):
+                        exp[i * n:(i + 1) * n] = vals[i]
+                    got = sep_r.i64 if c["ratio"] == 1 else sep_r.i64.reshape(-1, 2)[:, 0]
+                    if not np.array_equal(got, exp):
+                        rec.violation(label + ": the out-of-place result is not the original integers / zero extension", {"case": c, "N": n})
+                        continue
+                    ok += 1
+                L.delete_module(mod)
+    rec.data["ok"] = ok
+
+
 def run(chk, replay=None):
     quick = chk.tier == "quick"
     Lib.get()
@@ -171,6 +229,17 @@ def run(chk, replay=None):
     chk.cov["programs"] = len(programs)
     inplace_idft = sum(1 for p in programs for s in p["steps"] if s.get("inplace"))
     chk.cov["inplace_idft_calls_in_programs"] = inplace_idft
+    # the inverse DFT over its own input, both module types (a DFT limb is 1 or 2 big limbs wide)
+    r = run_tlc("IdftOverlay", "IdftOverlay.cfg", workers=4, name="c13-overlay")
+    tlc_must_pass(r, "IdftOverlay")
+    chk.add_tlc(r, "exhaustive: inverse DFT over its own input, every read sees the caller's bytes (sizes 0..6, limb ratio 1 and 2)")
+    r = run_tlc("IdftOverlay", "IdftOverlay_gen.cfg", workers=1, name="c13-overlaygen")
+    tlc_must_pass(r, "IdftOverlay gen")
+    ocases = [json.loads(t) for t in sorted(set(json.dumps(c, sort_keys=True) for c in printed_json(r, "CASE")))]
+    d = isolated(chk, "inverse DFT over its own input, both module types", drive_idft_overlay, (ocases, [4, 64] if quick else [2, 4, 16, 64, 1024]),
+                 timeout=1200)
+    chk.traces += d["ok"] if d else 0
+    chk.cov["idft_overlay_cases"] = len(ocases)
     r = run_tlc("Pointwise", "Pointwise_gen.cfg", workers=1, name="c13-pwgen")
     tlc_must_pass(r, "Pointwise gen")
     pcases = printed_json(r, "CASE")
